@@ -23,7 +23,7 @@ func LoadJSONChecking(ctx *runtime.Task, funcExpr *ast.CallExpr) *errchain.PlErr
 }
 
 func LoadJSON(ctx *runtime.Task, funcExpr *ast.CallExpr) *errchain.PlError {
-	val, dtype, err := runtime.RunStmt(ctx, funcExpr.Param[0])
+	val, dtype, err := runArg(ctx, funcExpr.Param[0])
 	if err != nil {
 		return err
 	}
